@@ -1,6 +1,7 @@
 #!/bin/bash
 # Build the Coq development from scratch (full .vo build, never -vos).
 set -e
+mkdir -p /verif/work /verif/replays /verif/evidence
 cd /verif/coq
 rm -f Makefile Makefile.conf .Makefile.d
 find . -name '*.vo' -o -name '*.vok' -o -name '*.vos' -o -name '*.glob' -o -name '.*.aux' | xargs rm -f
